@@ -475,3 +475,27 @@ func backward(v ssa.Value, through func(ssa.Value) bool) map[ssa.Value]bool {
 	rec(v)
 	return set
 }
+
+// retVal resolves result i of a Return through go/ssa's defer spill: in functions
+// with defers, results are stored into local cells and reloaded after rundefers.
+func retVal(ret *ssa.Return, i int) ssa.Value {
+	if i < 0 || i >= len(ret.Results) {
+		return nil
+	}
+	v := ret.Results[i]
+	u, ok := v.(*ssa.UnOp)
+	if !ok || u.Op != token.MUL {
+		return v
+	}
+	al, ok := u.X.(*ssa.Alloc)
+	if !ok {
+		return v
+	}
+	b := ret.Block()
+	for k := len(b.Instrs) - 1; k >= 0; k-- {
+		if st, ok := b.Instrs[k].(*ssa.Store); ok && st.Addr == al {
+			return st.Val
+		}
+	}
+	return v
+}
